@@ -116,7 +116,7 @@ def _bounded_worker(task):
 
 
 def run_property(report, modname, timeout_ms=None, bounded=True, procs=None,
-                 bounded_limit_s=None):
+                 bounded_limit_s=None, only=None):
   """Fills `report` (a common.Report).  Returns the list of per-contract summaries."""
   tier = common.tier()
   if timeout_ms is None:
@@ -124,13 +124,17 @@ def run_property(report, modname, timeout_ms=None, bounded=True, procs=None,
   procs = procs or min(16, os.cpu_count() or 4)
   mod = importlib.import_module(modname)
   n = len(mod.CONTRACTS)
+  idxs = [i for i in range(n) if only is None or
+          any(mod.CONTRACTS[i].prefix.startswith(p) for p in only)]
   ctxm = mp.get_context("fork")
-  with ctxm.Pool(min(procs, max(1, n))) as pool:
-    proofs = pool.map(_prove_worker, [(modname, i, timeout_ms) for i in range(n)])
+  with ctxm.Pool(min(procs, max(1, len(idxs)))) as pool:
+    proofs = pool.map(_prove_worker, [(modname, i, timeout_ms) for i in idxs])
+  selected = [mod.CONTRACTS[i] for i in idxs]
   bounded_out = {}
   if bounded:
     tasks = []
     for i, c in enumerate(mod.CONTRACTS):
+      if i not in idxs: continue
       if getattr(c, "enum", None) is None: continue
       W = max(1, procs // max(1, sum(1 for k in mod.CONTRACTS if getattr(k, "enum", None))))
       for w in range(W):
@@ -149,7 +153,7 @@ def run_property(report, modname, timeout_ms=None, bounded=True, procs=None,
   backends = {}
   assumed = set()
   samples = []
-  for i, (c, p) in enumerate(zip(mod.CONTRACTS, proofs)):
+  for i, (c, p) in zip(idxs, zip(selected, proofs)):
     if p.get("crash"):
       report.crash("pysym crashed on %s: %s" % (p["contract"], p["crash"]))
       continue
